@@ -232,6 +232,10 @@ impl AsmParser {
                     self.tok_end - tok.span.offs()
                 };
                 let span = Span::new(SrcOffset(tok.span.offs()), len);
+                // Line numbers (and addresses) are 16 bits wide
+                if self.air.len() >= u16::MAX as usize {
+                    return Err(error::parse_too_long(span, self.src));
+                }
                 self.air.add_stmt(stmt, span);
             } else {
                 if labeled_line {
@@ -240,7 +244,7 @@ impl AsmParser {
                 break;
             }
 
-            self.line += 1;
+            self.line = self.line.saturating_add(1);
         }
         Ok(self.air)
     }
